@@ -46,10 +46,13 @@ func targetMethod(r *rand.Rand, p *synth.Project, withBody, withForm bool) synth
 	for i := 0; i < np; i++ {
 		name := []string{"pid", "key"}[i]
 		m.Params = append(m.Params, synth.Param{GoName: name, Type: synth.Prim(prims[r.Intn(len(prims))]), In: "path"})
-		if r.Intn(2) == 0 {
+		switch r.Intn(3) {
+		case 0:
 			m.Route += "/{" + name + "}"
-		} else {
+		case 1:
 			m.Route += "/seg" + fmt.Sprint(i) + "/{" + name + "}"
+		default:
+			m.Route += "/" + name + "s/{" + name + "}" // the name also occurs as plain text before its {placeholder}
 		}
 	}
 	m.Params = append(m.Params, synth.Param{GoName: "q", Type: synth.Prim(prims[r.Intn(len(prims))]), In: "query", Descr: []string{"", "The q", "Ünï: 説明"}[r.Intn(3)]})
@@ -73,7 +76,7 @@ func targetMethod(r *rand.Rand, p *synth.Project, withBody, withForm bool) synth
 	return m
 }
 
-var PerturbationIDs = []string{"P0", "P1", "P2", "P3", "P3b", "P3c", "P22", "P22d", "P15d", "P16d", "P18d", "P6d", "PX1", "PX2", "PX3", "PX4", "PX5", "PE1", "PE2", "PE3", "P4", "P5", "P6", "P7", "P8q", "P8h", "P8b", "P8f", "P9", "P10", "P11s", "P11m", "P11t", "P12", "P13a", "P13b", "P14a", "P14b", "P15", "P16", "P17", "P18", "P20", "P21", "PC1", "PC2", "PC3", "PC4"}
+var PerturbationIDs = []string{"P0", "P1", "P2", "P3", "P3b", "P3c", "P22", "P22d", "P15d", "P16d", "P18d", "P6d", "PX1", "PX2", "PX3", "PX4", "PX5", "PE1", "PE2", "PE3", "PS1", "PS2", "PS3", "PS0", "PM1", "P4", "P5", "P6", "P7", "P8q", "P8h", "P8b", "P8f", "P9", "P10", "P11s", "P11m", "P11t", "P12", "P13a", "P13b", "P14a", "P14b", "P15", "P16", "P17", "P18", "P20", "P21", "PC1", "PC2", "PC3", "PC4"}
 
 func paramIdx(m *synth.Method, name string) int {
 	for i, p := range m.Params {
@@ -89,7 +92,7 @@ func ApplyPerturbation(p *synth.Project, id string, r *rand.Rand) *Perturbation 
 	c := &p.Controllers[0]
 	pt := &Perturbation{ID: id, Ctl: c.Name, Method: "Target", Applied: true, Listed: true}
 	withBody := id == "P8b" || id == "P9" || id == "P10"
-	withForm := id == "P8f"
+	withForm := id == "P8f" || id == "PS3"
 	m := targetMethod(r, p, withBody, withForm)
 	// a parameterised controller prefix must be bound by every method
 	if strings.Contains(c.Route, "{tenant}") && id != "P3b" && id != "P3c" {
@@ -239,6 +242,39 @@ func ApplyPerturbation(p *synth.Project, id string, r *rand.Rand) *Perturbation 
 			p.Structs = append(p.Structs, synth.Struct{Name: "TargetBad", Pkg: c.Pkg, IsError: true, Fields: []synth.Field{{GoName: "Why", Type: synth.Prim("string"), JSONName: "why"}}})
 		}
 		m.ErrType, m.ErrPtr = "TargetBad", false
+	case "PM1":
+		pt.Rule, pt.Expect, pt.Listed = "enforceSecurityOnAllRoutes with a route that has no security at any level", "reject", false
+		p.Config.Enforce, p.Config.DefaultSecurity = true, nil
+		for ci := range p.Controllers {
+			cc := &p.Controllers[ci]
+			cc.Security = nil
+			for mi := range cc.Methods {
+				if cc.Methods[mi].IsEndpoint() {
+					cc.Methods[mi].Security = []synth.Security{{Scheme: p.Config.Schemes[0].Name, Scopes: []string{"read"}}}
+				}
+			}
+		}
+		m.Security = nil
+	case "PS0":
+		pt.Rule, pt.Expect = "positive control: a slice of primitives as query parameter", "accept"
+		m.Params[paramIdx(&m, "q")].Type = synth.Slice(synth.Prim("string"))
+	case "PS1", "PS2", "PS3":
+		// slices are only allowed in the query (and as body)
+		pt.Expect = "reject"
+		switch id {
+		case "PS1":
+			pt.Rule = "a slice of primitives as header parameter"
+			if paramIdx(&m, "hdr") < 0 {
+				m.Params = append(m.Params, synth.Param{GoName: "hdr", Type: synth.Prim("string"), In: "header", Wire: "X-Hdr"})
+			}
+			m.Params[paramIdx(&m, "hdr")].Type = synth.Slice(synth.Prim("string"))
+		case "PS2":
+			pt.Rule = "a slice of primitives as path parameter"
+			m.Params[paramIdx(&m, pathName)].Type = synth.Slice(synth.Prim("int"))
+		case "PS3":
+			pt.Rule = "a slice of primitives as form field"
+			m.Params[paramIdx(&m, "field1")].Type = synth.Slice(synth.Prim("string"))
+		}
 	case "PX5":
 		pt.Rule, pt.Expect = "two unreferenced parameters declared as one grouped field that spans two source lines", "reject"
 		m.Params = append(m.Params, synth.Param{GoName: "mlFirst", Type: synth.Prim("string"), In: "query", BreakBefore: true}, synth.Param{GoName: "mlSecond", Type: synth.Prim("string"), In: "query", BreakBefore: true})
